@@ -56,6 +56,7 @@ def main():
     runs = 200000
     props = [prop]
     keep = False
+    race_demo = False
     i = 3
     while i < len(args):
         if args[i] == '--runs':
@@ -64,6 +65,8 @@ def main():
             props = args[i + 1].split(','); i += 2
         elif args[i] == '--keep':
             keep = True; i += 1
+        elif args[i] == '--race-demo':
+            race_demo = True; i += 1
         else:
             i += 1
     meta = {"name": name, "property": prop, "source_dir": src, "validated_at": time.strftime('%Y-%m-%dT%H:%M:%SZ', time.gmtime())}
@@ -93,18 +96,18 @@ def main():
             pat = '^(' + '|'.join(names) + ')$'
             fails_with = 0
             for _ in range(3):
-                rc, out = sh(f"go test -vet=off -count=1 -timeout 10m -run '{pat}' .", cwd=wt)
+                rc, out = sh(f"go test {'-race ' if race_demo else ''}-vet=off -count=1 -timeout 10m -run '{pat}' .", cwd=wt)
                 fails_with += rc != 0
             # demo without the change
             sh(f"git apply -R {patch}", cwd=wt)
             fails_without = 0
             for _ in range(3):
-                rc, out2 = sh(f"go test -vet=off -count=1 -timeout 10m -run '{pat}' .", cwd=wt)
+                rc, out2 = sh(f"go test {'-race ' if race_demo else ''}-vet=off -count=1 -timeout 10m -run '{pat}' .", cwd=wt)
                 fails_without += rc != 0
             sh(f"git apply {patch}", cwd=wt)
             for d in demos:
                 os.remove(os.path.join(wt, d))
-            meta['demo'] = {"tests": names, "fails_with_change": f"{fails_with}/3", "fails_without_change": f"{fails_without}/3"}
+            meta['demo'] = {"race_detector": race_demo, "tests": names, "fails_with_change": f"{fails_with}/3", "fails_without_change": f"{fails_without}/3"}
             demo_ok = fails_with >= 1 and fails_without == 0
         else:
             meta['demo'] = {"note": "no demo_test.go; see NOTES.md for the demonstration program"}
